@@ -178,6 +178,22 @@ func TestVerifState(t *testing.T) {
 				sdb = st.db
 			}
 		}
+		if s == 1 {
+			// the history of known finding D14, always exercised: an existing empty account, a zero-value touch inside a
+			// snapshot, revert, then a real change
+			st.SetBalance(sAddrs[4], big.NewInt(0))
+			emitOp("setbalance", map[string]interface{}{"a": aid(4)})
+			commitPoint("commit", seqDel)
+			id := st.Snapshot()
+			w.emit(map[string]interface{}{"e": "snapshot", "id": id, "obs": observe(st.Copy())})
+			st.AddBalance(sAddrs[4], big.NewInt(0))
+			emitOp("addbalance", map[string]interface{}{"a": aid(4), "v": 0})
+			st.RevertToSnapshot(id)
+			w.emit(map[string]interface{}{"e": "revert", "id": id, "obs": observe(st.Copy())})
+			st.SetNonce(sAddrs[4], 5)
+			emitOp("setnonce", map[string]interface{}{"a": aid(4)})
+			commitPoint("commit", seqDel)
+		}
 		for i := 0; i < nops; i++ {
 			ai := rng.Intn(len(sAddrs))
 			a := sAddrs[ai]
